@@ -17,14 +17,14 @@ RULE = ("each case = a provider (MockProvider id-style/path-style x case-sensiti
         "(target exists / upload onto a folder / delete of a non-empty folder / rename onto a file or non-empty folder), CloudFileNotFoundError (missing source or parent), silent delete of a missing id; "
         "reads agree with the tree and with each other; ids are stable across rename (id-style) or equal the new normalised path for the renamed object and everything below it (path-style); the hash "
         "reported for a file equals hash_data() of the same bytes and differs between different contents, in every size class; after every successful mutation the drained event stream contains an event "
-        "with the object's id and the right existence (MockProvider; the filesystem provider's events come from a real inotify thread outside the simulator and are not judged); connecting with an identity "
+        "with the object's id and the right existence (for the filesystem provider the pool of real watchdog/inotify threads is replaced by a SimObserverPool: the harness delivers, once or twice, the watchdog events inotify reports for each mutation, so the provider's own conversion, cursor and events() code is what is judged - not inotify itself); connecting with an identity "
         "different from the established one is refused. distinct = (provider, op-kind sequence with outcome classes); non-trivial = >=1 call whose documented outcome is an error and >=1 mutation succeeded.")
 ASSUMPTIONS = ["where the Provider docstrings and the repo's provider tests leave two error classes open (e.g. creating below a FILE: exists or not-found) either is accepted",
-               "filesystem provider: real os calls on a scratch directory under the per-process scratch root; its watchdog observer thread is real and its events are not part of the verdict"]
+               "filesystem provider: real os calls on a scratch directory under the per-process scratch root; watchdog events are synthesised by the harness (SimObserverPool), real inotify delivery is outside the simulator"]
 LEVEL_TEXT = "seeded sequence search with a reference model, call by call"
 LEVEL_NOTE = "trusted: the reference tree (props/c16.py); the outcome table is transcribed from Provider docstrings and cloudsync/tests/test_provider.py"
 REAL = ["MockProvider/MockFS", "FileSystemProvider (real files)", "Provider base class (connect identity check, path helpers)"]
-STUBS = ["clock (virtual)"]
+STUBS = ["clock (virtual)", "FileSystemProvider._observers (SimObserverPool instead of watchdog threads)"]
 
 NAMES = ("a", "b", "A", "ü x.txt")
 SIZES = (0, 5, 1500, 2500, 100_000)
@@ -71,12 +71,49 @@ class Ref:
         return None
 
 
+class SimObserverPool:
+    """stands in for FileSystemProvider._observers (a pool of real watchdog/inotify threads): the harness itself delivers the
+    watchdog events a mutation produces, so that the provider's own conversion / cursor / events() code runs deterministically"""
+    def __init__(self):
+        self.cbs = []
+
+    def add(self, path, callback):
+        if callback not in self.cbs:
+            self.cbs.append(callback)
+
+    def discard(self, path, callback):
+        if callback in self.cbs:
+            self.cbs.remove(callback)
+
+    def deliver(self, event, times=1):
+        for _ in range(times):
+            for cb in list(self.cbs):
+                cb(event)
+
+
+def _fs_notify(pool, kind, is_dir, src, dst=None, dup=1):
+    """what inotify reports for one successful mutation (paths are real file-system paths)"""
+    from watchdog import events as we
+    parent = os.path.dirname(src)
+    if kind == "create":
+        evs = [we.DirCreatedEvent(src) if is_dir else we.FileCreatedEvent(src)] + ([] if is_dir else [we.FileModifiedEvent(src)]) + [we.DirModifiedEvent(parent)]
+    elif kind == "modify":
+        evs = [we.FileModifiedEvent(src)]
+    elif kind == "move":
+        evs = [we.DirMovedEvent(src, dst) if is_dir else we.FileMovedEvent(src, dst), we.DirModifiedEvent(parent), we.DirModifiedEvent(os.path.dirname(dst))]
+    else:
+        evs = [we.DirDeletedEvent(src) if is_dir else we.FileDeletedEvent(src), we.DirModifiedEvent(parent)]
+    for e in evs:
+        pool.deliver(e, dup)
+
+
 def _mk(name):
     det.reset_world_globals()
     if name == "fs":
         from cloudsync.providers.filesystem import FileSystemProvider
         root = os.path.join(det.scratch_root(), "fsroot")
         os.makedirs(root, exist_ok=True)
+        FileSystemProvider._observers = SimObserverPool()
         p = FileSystemProvider()
         p.namespace_id = root
         p.connect({"key": "val"})
@@ -144,6 +181,8 @@ def _run(case):
                         ref.t[ref.k(path)] = [path, "d", None, oid]
                         obj = oid
                     muts += 1
+                    if is_fs:
+                        _fs_notify(prov._observers, "create", k == "mkdir", obj, dup=case.get("fsdup", 1))
                     ev = _drain(prov, is_fs)
                     if ev is not None and not any(e.oid == obj and e.exists is not False for e in ev):
                         return bad("no event with id %r and exists!=False after the successful call (got %s)" % (obj, [(e.oid, e.exists) for e in ev][:5]))
@@ -160,6 +199,8 @@ def _run(case):
                         return bad("succeeded, documented outcome is %s" % "/".join(c.__name__ for c in expect_exc))
                     e[2] = data
                     muts += 1
+                    if is_fs:
+                        _fs_notify(prov._observers, "modify", False, oid, dup=case.get("fsdup", 1))
                     ev = _drain(prov, is_fs)
                     if ev is not None and not any(x.oid == oid and x.exists is not False for x in ev):
                         return bad("no event for id %r after upload" % (oid,))
@@ -205,6 +246,8 @@ def _run(case):
                                 return bad("after the rename info_path(%r) finds nothing" % (ent[0],))
                             ent[3] = info.oid
                     muts += 1
+                    if is_fs and not same:
+                        _fs_notify(prov._observers, "move", e[1] == "d", oid, new_oid, dup=case.get("fsdup", 1))
                     ev = _drain(prov, is_fs)
                     if ev is not None and not same and not any(x.oid == new_oid and x.exists is not False for x in ev):
                         return bad("no event with the renamed object's id %r after rename (got %s)" % (new_oid, [(x.oid, x.exists) for x in ev][:5]))
@@ -219,6 +262,8 @@ def _run(case):
                     if e is not None:
                         del ref.t[ref.k(op[1])]
                         muts += 1
+                        if is_fs:
+                            _fs_notify(prov._observers, "delete", e[1] == "d", oid, dup=case.get("fsdup", 1))
                         ev = _drain(prov, is_fs)
                         if ev is not None and not any(x.oid == oid and x.exists is False for x in ev):
                             return bad("no event with id %r and exists=False after delete (got %s)" % (oid, [(x.oid, x.exists) for x in ev][:5]))
@@ -293,8 +338,6 @@ def _run(case):
 
 
 def _drain(prov, is_fs):
-    if is_fs:
-        return None
     return list(prov.events())
 
 
@@ -329,7 +372,7 @@ def generate(rng, tier, index):
             plan.append(["delete", _path(rng, ci)])
         else:
             plan.append(["read", _path(rng, ci)])
-    return _evaluate({"prop": ID, "provider": provider, "plan": plan, "family": provider, "cfg": {}})
+    return _evaluate({"prop": ID, "provider": provider, "plan": plan, "family": provider, "cfg": {}, "fsdup": rng.choice([1, 1, 2])})
 
 
 def replay(case):
